@@ -444,6 +444,76 @@ Proof.
   - exists (pub s2), n. split; [exact Hn|exact Hz2].
 Qed.
 
+(* the same stream in one UDP datagram *)
+Theorem udp_ixfr_general : forall v0 chain z0 w,
+  chain_ok_g v0 chain -> zeq z0 (zone_of v0) ->
+  header_ok tIXFR w -> w_records w = ixfr_stream v0 chain ->
+  exists z', inbound_xfr z0 tIXFR (Some (v_serial v0)) true [w] = (Done z', 1%nat)
+             /\ zeq z' (zone_of (last chain v0)).
+Proof.
+  intros v0 chain z0 w Hok Hz Hw Hr.
+  destruct (ixfr_records_g true v0 chain z0 Hok Hz) as (s1 & s2 & Hl & Hd1 & Hf & Hd2 & Hz2).
+  pose proof Hok as (Hne0 & _ & _ & Hser & Hlt).
+  unfold inbound_xfr, xfr_run. rewrite init_ixfr. cbn [Z.eqb tIXFR Pos.eqb]. rewrite drive_cons by solve_req.
+  unfold ixfr_stream in Hr. cbv zeta in Hr.
+  rewrite (first_message_ixfr z0 (v_serial v0) true w (soa_rr (last chain v0)) _ Hw Hr) by (split; reflexivity).
+  cbv zeta. change (r_data (soa_rr (last chain v0)) mod two32) with (v_serial (last chain v0)).
+  assert (Hne : (v_serial (last chain v0) =? v_serial v0) = false).
+  { apply Z.eqb_neq. intros E. apply (Hser v0 (or_introl eq_refl)). symmetry. exact E. }
+  rewrite Hne, Hlt.
+  assert (Hnn : (match diff_seqs v0 chain ++ [soa_rr (last chain v0)] with [] => true | _ :: _ => false end) = false)
+    by (destruct (diff_seqs v0 chain); reflexivity).
+  rewrite Hnn. cbn [andb].
+  rewrite map_app. cbn [map]. rewrite loop_snoc.
+  change (set_expecting (set_soa (set_txn (ixfr_init z0 (v_serial v0) true) (Some z0))
+            (Some (single (soa_rr (last chain v0))))) true)
+    with (ist true z0 z0 (v_serial v0) (single (soa_rr (last chain v0))) true false).
+  rewrite Hl, Hf, Hd2. cbn [negb]. rewrite andb_false_r. cbn [cont]. rewrite Hd2.
+  exists (pub s2). auto.
+Qed.
+
+(* every proper prefix of the stream, in any division into messages: an error, zone untouched *)
+Theorem ixfr_early_end_rejected_general : forall v0 chain z0 ws q,
+  chain_ok_g v0 chain -> zeq z0 (zone_of v0) ->
+  Forall (header_ok tIXFR) ws -> q <> [] ->
+  concat (map w_records ws) ++ q = ixfr_stream v0 chain ->
+  exists e n, inbound_xfr z0 tIXFR (Some (v_serial v0)) false ws = (Error e z0, n).
+Proof.
+  intros v0 chain z0 ws q Hok Hz Hh Hq Hcat.
+  assert (NE : forall r n, r = inbound_xfr z0 tIXFR (Some (v_serial v0)) false ws ->
+            (exists e z, r = (Error e z, n)) -> exists e n, inbound_xfr z0 tIXFR (Some (v_serial v0)) false ws = (Error e z0, n)).
+  { intros r n -> [e [z H]]. pose proof (error_leaves_zone _ _ _ _ _ _ _ _ H). subst z. eauto. }
+  destruct ws as [|w ws'].
+  { eapply NE; [reflexivity|]. unfold inbound_xfr, xfr_run. rewrite init_ixfr. cbn. eauto. }
+  inversion Hh as [|? ? Hw Hws]; subst.
+  destruct (w_records w) as [|r0 a] eqn:Hr.
+  { eapply NE; [reflexivity|]. unfold inbound_xfr, xfr_run. rewrite init_ixfr. cbn [Z.eqb tIXFR Pos.eqb]. rewrite drive_cons by solve_req.
+    unfold process_message, from_wire. cbn [txn ixfr_init incremental pub set_txn rdtype m_rcode m_question m_answer].
+    destruct Hw as [Hrc Hqq]. rewrite Hrc. cbn [Z.eqb negb]. rewrite (header_ok_question tIXFR w (conj Hrc Hqq)).
+    cbn [soa]. rewrite Hr. cbn. eauto. }
+  unfold ixfr_stream in Hcat. cbv zeta in Hcat. cbn [map concat] in Hcat. rewrite Hr in Hcat.
+  cbn [app] in Hcat. inversion Hcat as [[E0 Hcat']]. subst r0. rewrite <- app_assoc in Hcat'.
+  destruct (ixfr_records_g false v0 chain z0 Hok Hz) as (s1 & s2 & Hl & Hd1 & Hf & Hd2 & Hz2).
+  pose proof Hok as (_ & _ & _ & Hser & Hlt).
+  (* the part received is a prefix of the difference sequences *)
+  rewrite app_assoc in Hcat'. apply app_snoc_split in Hcat'.
+  destruct Hcat' as [[c' [Hmid Hq']]|[_ Hq']]; [|congruence].
+  rewrite Hmid, map_app, loopn_app in Hl.
+  destruct (loopn _ (map single (a ++ concat (map w_records ws')))) as [sp [e|]] eqn:Hp; [discriminate|].
+  pose proof (loopn_none_not_done _ _ _ Hl Hd1) as Hdp.
+  destruct (cont_records_eof ws' a (ist false z0 z0 (v_serial v0) (single (soa_rr (last chain v0))) true false) sp)
+    as [n [z Hn]]; try assumption.
+  { repeat split; try reflexivity; discriminate. }
+  apply (NE _ n eq_refl). exists eEOF, z.
+  unfold inbound_xfr, xfr_run. rewrite init_ixfr. cbn [Z.eqb tIXFR Pos.eqb]. rewrite drive_cons by solve_req.
+  rewrite (first_message_ixfr z0 (v_serial v0) false w (soa_rr (last chain v0)) a Hw Hr) by (split; reflexivity).
+  cbv zeta. change (r_data (soa_rr (last chain v0)) mod two32) with (v_serial (last chain v0)).
+  assert (Hne : (v_serial (last chain v0) =? v_serial v0) = false).
+  { apply Z.eqb_neq. intros E. apply (Hser v0 (or_introl eq_refl)). symmetry. exact E. }
+  rewrite Hne, Hlt. cbn [andb]. rewrite after_tcp by reflexivity.
+  exact Hn.
+Qed.
+
 (* ---- the AXFR-style answer to an IXFR request, versions of any content ---- *)
 Lemma zminus_nil : forall b, zminus b [] = body b.
 Proof. intros b. unfold zminus. apply filter_all. intros r _. reflexivity. Qed.
